@@ -516,6 +516,28 @@ theorem her_elem1 {Q : GoType → Prop} (hQ : Her Q) (t : GoType) (hq : Q t) (n 
   | struct a b c => simp only [elem1, derefT, GoType.struct.injEq] at h; obtain ⟨rfl, rfl, rfl⟩ := h; exact hq
   | _ => simp [elem1, derefT] at h
 
+/-- the same for the walk that unwraps containers completely -/
+theorem her_elemAll {Q : GoType → Prop} (hQ : Her Q) : ∀ (t : GoType), Q t → ∀ (n p : Bytes) (fs : List (FieldHdr × GoType)),
+    derefT (elemAll t) = .struct n p fs → Q (.struct n p fs)
+  | .slice e, hq, n, p, fs, h => her_elemAll hQ e (hQ.slice e hq) n p fs (by simpa [elemAll] using h)
+  | .array k e, hq, n, p, fs, h => her_elemAll hQ e (hQ.array k e hq) n p fs (by simpa [elemAll] using h)
+  | .map e, hq, n, p, fs, h => her_elemAll hQ e (hQ.map e hq) n p fs (by simpa [elemAll] using h)
+  | .ptr e, hq, n, p, fs, h => her_elemAll hQ e (hQ.ptr e hq) n p fs (by simpa [elemAll] using h)
+  | .struct a b c, hq, n, p, fs, h => by
+    simp only [elemAll, derefT, GoType.struct.injEq] at h; obtain ⟨rfl, rfl, rfl⟩ := h; exact hq
+  | .bytes, _, n, p, fs, h => by simp [elemAll, derefT] at h
+  | .bool, _, n, p, fs, h => by simp [elemAll, derefT] at h
+  | .int _, _, n, p, fs, h => by simp [elemAll, derefT] at h
+  | .float _, _, n, p, fs, h => by simp [elemAll, derefT] at h
+  | .str, _, n, p, fs, h => by simp [elemAll, derefT] at h
+  | .iface, _, n, p, fs, h => by simp [elemAll, derefT] at h
+
+theorem her_walkElem {Q : GoType → Prop} (hQ : Her Q) (deep : Bool) (t : GoType) (hq : Q t) (n p : Bytes)
+    (fs : List (FieldHdr × GoType)) (h : derefT (walkElem deep t) = .struct n p fs) : Q (.struct n p fs) := by
+  cases deep with
+  | false => exact her_elem1 hQ t hq n p fs (by simpa [walkElem] using h)
+  | true => exact her_elemAll hQ t hq n p fs (by simpa [walkElem] using h)
+
 /-! ### registration keeps the invariant and never panics on good types -/
 
 section Reg
@@ -527,11 +549,11 @@ def LookupOK (b : Bool) : Prop :=
   ∀ (k n p : Bytes) (fs : List (FieldHdr × GoType)) (T' : GoType), (k = n ∨ k = fullName n p) →
     Q (.struct n p fs) → Q T' → K k T' → b = true → T' = .struct n p fs
 
-theorem regFields_inv (reg1 : Registry → GoType → RegOut) (hQ : Her Q)
+theorem regFields_inv (deep : Bool) (reg1 : Registry → GoType → RegOut) (hQ : Her Q)
     (hreg1 : ∀ r t, InvG K Q r → (∀ n p fs, derefT t = .struct n p fs → Q (.struct n p fs)) →
       InvG K Q (reg1 r t).reg ∧ (reg1 r t).panicked = false) :
     ∀ (fs : List (FieldHdr × GoType)) (r : Registry), InvG K Q r → (∀ ht ∈ fs, Q ht.2) →
-      InvG K Q (regFields reg1 r fs).1 ∧ (regFields reg1 r fs).2 = false := by
+      InvG K Q (regFields deep reg1 r fs).1 ∧ (regFields deep reg1 r fs).2 = false := by
   intro fs
   induction fs with
   | nil => intro r hr _; exact ⟨hr, rfl⟩
@@ -544,8 +566,9 @@ theorem regFields_inv (reg1 : Registry → GoType → RegOut) (hQ : Her Q)
     · exact ih r hr hrest
     · split
       · exact ih r hr hrest
-      · have h1 := hreg1 r (elem1 t) hr (fun n p fs hd => her_elem1 hQ t (hfs (h, t) List.mem_cons_self) n p fs hd)
-        cases hr1 : reg1 r (elem1 t) with
+      · have h1 := hreg1 r (walkElem deep t) hr
+          (fun n p fs hd => her_walkElem hQ deep t (hfs (h, t) List.mem_cons_self) n p fs hd)
+        cases hr1 : reg1 r (walkElem deep t) with
         | mk r' c' p' =>
           rw [hr1] at h1
           simp only at h1
@@ -632,8 +655,8 @@ theorem registerT_inv (b : Bool) (hQ : Her Q) (hgood : ∀ t, Q t → goodT t = 
               have hm' : ht ∈ fs := List.mem_reverse.mp hm
               obtain ⟨i, hi⟩ := List.mem_iff_getElem?.mp hm'
               exact hQ.field name pkg fs i ht hq hi
-            have := regFields_inv K Q w hQ hw fs.reverse _ hr1 hfs
-            cases hrf : regFields w ((r.set name ⟨name, fullName name pkg, .struct name pkg fs, im⟩).set (fullName name pkg)
+            have := regFields_inv K Q (!b) w hQ hw fs.reverse _ hr1 hfs
+            cases hrf : regFields (!b) w ((r.set name ⟨name, fullName name pkg, .struct name pkg fs, im⟩).set (fullName name pkg)
                 ⟨name, fullName name pkg, .struct name pkg fs, im⟩) fs.reverse with
             | mk r' p' =>
               rw [hrf] at this
